@@ -1,94 +1,9 @@
 #![no_main]
-//! C04: stream-level entry points. The bytes are decoded into (entry, dictionary, content) so that the fuzzer
-//! reaches the decoders instead of dying in argument validation: byte 0 selects the entry, then a small
-//! table-driven dictionary (filter chain, decode parameters, N/First/W/Index/Size from 8-byte integers), the
-//! rest is the stream content.
+//! libFuzzer front end of the 'streams' target; the decoding of the bytes into worker calls lives in lv::props::fuzzdec
+//! (shared with the confirmation step of the thorough tier). Any panic (overflow checks are on), abort, stack
+//! overflow, timeout or out-of-memory is a libFuzzer artifact, which the check re-runs in the isolated worker.
 use libfuzzer_sys::fuzz_target;
-use lv::model::{AObj, B};
-use lv::props::entries::{dispatch, StreamSpec, E_FILTER, E_OBJSTM, E_XREF};
-
-struct Un<'a>(&'a [u8]);
-impl Un<'_> {
-    fn byte(&mut self) -> u8 {
-        if let Some((b, rest)) = self.0.split_first() {
-            self.0 = rest;
-            *b
-        } else {
-            0
-        }
-    }
-    fn int(&mut self) -> i64 {
-        match self.byte() % 6 {
-            0 => self.byte() as i64,
-            1 => -(self.byte() as i64),
-            2 => (self.byte() as i64) << 8 | self.byte() as i64,
-            3 => [i64::MAX, i64::MIN, 1 << 32, (1 << 32) - 1, 1 << 31, 1 << 62, 65536, 4294967296][self.byte() as usize % 8],
-            4 => {
-                let mut v = 0i64;
-                for _ in 0..8 {
-                    v = v << 8 | self.byte() as i64;
-                }
-                v
-            }
-            _ => (self.byte() % 16) as i64,
-        }
-    }
-}
 
 fuzz_target!(|data: &[u8]| {
-    if data.len() > 65536 || data.is_empty() {
-        return;
-    }
-    let mut u = Un(data);
-    let entry = [E_FILTER, E_OBJSTM, E_XREF][u.byte() as usize % 3];
-    let mut dict: Vec<(B, AObj)> = vec![];
-    let names = ["FlateDecode", "LZWDecode", "ASCII85Decode", "ASCIIHexDecode", "Crypt", "DCTDecode"];
-    let nf = u.byte() % 4;
-    if nf == 1 {
-        dict.push((B::from("Filter"), AObj::name(names[u.byte() as usize % names.len()])));
-    } else if nf > 1 {
-        dict.push((B::from("Filter"), AObj::Array((0..nf).map(|_| AObj::name(names[u.byte() as usize % names.len()])).collect())));
-    }
-    let parms = |u: &mut Un| {
-        let mut d: Vec<(B, AObj)> = vec![];
-        let mask = u.byte();
-        for (i, k) in ["Predictor", "Colors", "Columns", "BitsPerComponent", "EarlyChange"].iter().enumerate() {
-            if mask & (1 << i) != 0 {
-                let v = if i == 0 && mask & 0x80 != 0 { 10 + (u.byte() % 6) as i64 } else { u.int() };
-                d.push((B::from(*k), AObj::Int(v)));
-            }
-        }
-        AObj::Dict(d)
-    };
-    match u.byte() % 3 {
-        0 => {}
-        1 => dict.push((B::from("DecodeParms"), parms(&mut u))),
-        _ => {
-            let n = u.byte() % 4;
-            dict.push((B::from("DecodeParms"), AObj::Array((0..n).map(|_| parms(&mut u)).collect())));
-        }
-    }
-    match entry {
-        E_OBJSTM => {
-            dict.push((B::from("Type"), AObj::name("ObjStm")));
-            dict.push((B::from("N"), AObj::Int(u.int())));
-            dict.push((B::from("First"), AObj::Int(u.int())));
-        }
-        E_XREF => {
-            dict.push((B::from("Type"), AObj::name("XRef")));
-            dict.push((B::from("Size"), AObj::Int(u.int())));
-            let nw = u.byte() % 5;
-            dict.push((B::from("W"), AObj::Array((0..nw).map(|_| AObj::Int(u.int())).collect())));
-            if u.byte() % 2 == 0 {
-                let ni = u.byte() % 6;
-                dict.push((B::from("Index"), AObj::Array((0..ni).map(|_| AObj::Int(u.int())).collect())));
-            }
-        }
-        _ => {}
-    }
-    let content = u.0.to_vec();
-    dict.push((B::from("Length"), AObj::Int(content.len() as i64)));
-    let spec = StreamSpec { dict, content: B(content) };
-    let payload = serde_json::to_vec(&spec).unwrap();
-    let _ = dispatch(entry, &payload);
+    lv::props::fuzzdec::fuzz_one("streams", data);
 });
